@@ -25,6 +25,8 @@ type fn struct {
 	variadic      bool
 	results       []string
 	mut, eff, pan bool
+	clk, slp      bool // in a unit with an explicit clock: reads it (extra parameter now_) / advances it (now_ is also returned)
+	fuel          bool // contains a general `for` loop: extra parameter fuel_, the result is an option (None = out of fuel)
 	busy, done    bool
 	text          string
 }
@@ -358,6 +360,18 @@ func (t *tr) shapes() {
 			onRecv := func(e ast.Expr) bool { r := rootIdent(e); return r != nil && f.recv != nil && r.Obj == f.recv }
 			ast.Inspect(f.d.Body, func(n ast.Node) bool {
 				switch s := n.(type) {
+				case *ast.ForStmt:
+					if t.countdown(s) == nil {
+						f.fuel = true
+					}
+				case *ast.CallExpr:
+					if src := t.src(s.Fun); t.unit.clock && strings.HasPrefix(src, "time.") {
+						f.clk = f.clk || src == "time.Now" || src == "time.Since" || src == "time.Sleep"
+						f.slp = f.slp || src == "time.Sleep"
+					}
+					if t.unit.clock && t.recvMethod(s, f.recv) {
+						f.clk = true
+					}
 				case *ast.AssignStmt:
 					for _, l := range s.Lhs {
 						if _, isId := l.(*ast.Ident); !isId && onRecv(l) {
@@ -392,6 +406,9 @@ func (t *tr) shapes() {
 						f.pan = true
 						return true
 					}
+					if t.unit.clock && t.src(c.Fun) == "time.Sleep" {
+						return true
+					}
 					g, rcv := t.callee(c, func(id *ast.Ident) string {
 						if f.recv != nil && id.Obj == f.recv {
 							return f.recvT
@@ -410,6 +427,52 @@ func (t *tr) shapes() {
 			changed = changed || mut != f.mut || eff != f.eff || pan != f.pan
 		}
 	}
+}
+
+// countdown: `for i := len(xs) - 1; i >= 0; i-- { body }` as the range statement over xs backwards, else nil.
+func (t *tr) countdown(s *ast.ForStmt) *ast.RangeStmt {
+	init, ok := s.Init.(*ast.AssignStmt)
+	if !ok || init.Tok != token.DEFINE || len(init.Lhs) != 1 || len(init.Rhs) != 1 {
+		return nil
+	}
+	i, _ := init.Lhs[0].(*ast.Ident)
+	post, _ := s.Post.(*ast.IncDecStmt)
+	if i == nil || post == nil || post.Tok != token.DEC || t.src(post.X) != i.Name || s.Cond == nil || t.src(s.Cond) != i.Name+" >= 0" {
+		return nil
+	}
+	if b, ok := init.Rhs[0].(*ast.BinaryExpr); ok && b.Op == token.SUB && t.src(b.Y) == "1" {
+		if l, ok := b.X.(*ast.CallExpr); ok && t.src(l.Fun) == "len" && len(l.Args) == 1 {
+			return &ast.RangeStmt{For: s.For, Key: i, Tok: token.DEFINE, X: l.Args[0], Body: s.Body}
+		}
+	}
+	return nil
+}
+
+// recvMethod: recv.M(args) for a method M that is not translated.
+func (t *tr) recvMethod(c *ast.CallExpr, recv *ast.Object) bool {
+	sel, ok := c.Fun.(*ast.SelectorExpr)
+	if !ok || recv == nil {
+		return false
+	}
+	id, ok := sel.X.(*ast.Ident)
+	if !ok || id.Obj != recv {
+		return false
+	}
+	for _, f := range t.fns {
+		if f.recv != nil && f.d.Name.Name == sel.Sel.Name && f.recvT == t.fnRecvT(recv) {
+			return false
+		}
+	}
+	return true
+}
+
+func (t *tr) fnRecvT(recv *ast.Object) string {
+	for _, f := range t.fns {
+		if f.recv == recv {
+			return f.recvT
+		}
+	}
+	return ""
 }
 
 func tuple(parts []string) string {
@@ -439,33 +502,43 @@ func (f *fn) resultType() string {
 	if f.eff {
 		parts = append(parts, "list effect")
 	}
-	if len(parts) == 0 {
-		return "unit"
+	if f.slp {
+		parts = append(parts, "Z")
 	}
-	return strings.Join(parts, " * ")
+	rt := "unit"
+	if len(parts) > 0 {
+		rt = strings.Join(parts, " * ")
+	}
+	if f.fuel {
+		return "option (" + rt + ")"
+	}
+	return rt
 }
 
-func (f *fn) pure() bool { return !f.mut && !f.eff && !f.pan && len(f.results) == 1 }
+func (f *fn) pure() bool {
+	return !f.mut && !f.eff && !f.pan && !f.slp && !f.fuel && len(f.results) == 1
+}
 
 // fctx: translation state of one function body.
 type fctx struct {
-	t     *tr
-	f     *fn
-	names map[*ast.Object]string // Go variable -> Gallina name (one name per declaration)
-	types map[*ast.Object]string
-	used  map[string]bool
-	brk   func() string // code for `break` / `continue` in the innermost loop (nil outside loops)
-	cont  func() string
-	elem  map[*ast.Object][2]string // `for i := range xs`: i -> (source text of xs, Gallina name of xs[i])
-	made  ast.Node                  // the make(chan) of this function (at most one)
-	iota  int                       // value of iota while a constant's expression is translated
-	rev   map[*ast.RangeStmt]bool   // synthesized from `for i := len(xs)-1; i >= 0; i--`: runs over the slice backwards
-	owned map[*ast.Object]bool      // locals initialised by a struct literal: the only non-receiver variables whose fields may be assigned
+	t      *tr
+	f      *fn
+	names  map[*ast.Object]string // Go variable -> Gallina name (one name per declaration)
+	types  map[*ast.Object]string
+	used   map[string]bool
+	brk    func() string // code for `break` / `continue` in the innermost loop (nil outside loops)
+	cont   func() string
+	elem   map[*ast.Object][2]string // `for i := range xs`: i -> (source text of xs, Gallina name of xs[i])
+	atStmt bool                      // translating the call of a foreignStmt
+	made   ast.Node                  // the make(chan) of this function (at most one)
+	iota   int                       // value of iota while a constant's expression is translated
+	rev    map[*ast.RangeStmt]bool   // synthesized from `for i := len(xs)-1; i >= 0; i--`: runs over the slice backwards
+	owned  map[*ast.Object]bool      // locals initialised by a struct literal: the only non-receiver variables whose fields may be assigned
 }
 
 var reserved = strings.Fields(`as at cofix else end exists exists2 fix for forall fun if IF in let match mod Prop return
   Set then Type using where with by effs_ lookup update isSome odef zlen slice_to slice_from Ret Panic app negb true false
-  Some None tt fst snd effs_1 slen nth rev length Z bool string list option alist unit nil cons res effect andb orb`)
+  Some None tt fst snd effs_1 slen nth rev now_ fuel_ O S length Z bool string list option alist unit nil cons res effect andb orb`)
 
 func (c *fctx) fresh(base string) string {
 	for _, ch := range base {
@@ -532,6 +605,12 @@ func (t *tr) translate(f *fn) {
 	for i, p := range f.params {
 		fmt.Fprintf(&hdr, " (%s : %s)", c.declare(p, f.ptypes[i]), f.ptypes[i])
 	}
+	if f.clk {
+		hdr.WriteString(" (now_ : Z)")
+	}
+	if f.fuel {
+		hdr.WriteString(" (fuel_ : nat)")
+	}
 	named := "" // named results are locals that start at their zero values
 	if f.d.Type.Results != nil {
 		i := 0
@@ -597,6 +676,17 @@ func (c *fctx) ret(vals []string) string {
 	}
 	if c.f.eff {
 		parts = append(parts, "effs_")
+	}
+	return c.wrap(parts)
+}
+
+// wrap: the result tuple, with the clock if the function advances it, as Some if the function is fuelled.
+func (c *fctx) wrap(parts []string) string {
+	if c.f.slp {
+		parts = append(parts, "now_")
+	}
+	if c.f.fuel {
+		return "Some " + paren(tuple(parts))
 	}
 	return tuple(parts)
 }
@@ -766,20 +856,15 @@ func (c *fctx) stmt(s ast.Stmt, k func() string) string {
 		}
 	case *ast.RangeStmt:
 		return c.rangeStmt(s, k)
-	case *ast.ForStmt: // only  for i := len(xs) - 1; i >= 0; i-- { ... }: a range over xs backwards
-		if init, ok := s.Init.(*ast.AssignStmt); ok && init.Tok == token.DEFINE && len(init.Lhs) == 1 && len(init.Rhs) == 1 {
-			i, _ := init.Lhs[0].(*ast.Ident)
-			post, _ := s.Post.(*ast.IncDecStmt)
-			if i != nil && post != nil && post.Tok == token.DEC && t.src(post.X) == i.Name && t.src(s.Cond) == i.Name+" >= 0" {
-				if b, ok := init.Rhs[0].(*ast.BinaryExpr); ok && b.Op == token.SUB && t.src(b.Y) == "1" {
-					if l, ok := b.X.(*ast.CallExpr); ok && t.src(l.Fun) == "len" && len(l.Args) == 1 {
-						r := &ast.RangeStmt{For: s.For, Key: i, Tok: token.DEFINE, X: l.Args[0], Body: s.Body}
-						c.rev[r] = true
-						return c.rangeStmt(r, k)
-					}
-				}
-			}
+	case *ast.ForStmt:
+		if r := t.countdown(s); r != nil { // for i := len(xs) - 1; i >= 0; i-- { ... }: a range over xs backwards
+			c.rev[r] = true
+			return c.rangeStmt(r, k)
 		}
+		if s.Init != nil {
+			return c.stmt(s.Init, func() string { return c.forStmt(s, k) })
+		}
+		return c.forStmt(s, k)
 	}
 	t.fail(s, "statement %s", firstLine(t.src(s)))
 	return ""
@@ -869,7 +954,7 @@ func (c *fctx) assignStmt(s *ast.AssignStmt, k func() string) string {
 		if call, ok := s.Rhs[0].(*ast.CallExpr); ok {
 			if g, _ := t.callee(call, c.typeOfIdent); g != nil && !g.pure() {
 				return c.callStmt(call, s, k)
-			} else if _, lit := call.Fun.(*ast.FuncLit); g == nil && !lit && (len(s.Lhs) > 1 || c.isAction(call)) {
+			} else if _, lit := call.Fun.(*ast.FuncLit); g == nil && !lit && (len(s.Lhs) > 1 || c.isAction(call) || (t.unit.clock && t.recvMethod(call, c.f.recv))) {
 				return c.foreignStmt(call, s, k)
 			}
 		}
@@ -948,9 +1033,16 @@ func (c *fctx) callStmt(call *ast.CallExpr, as *ast.AssignStmt, k func() string)
 		if c.f.eff {
 			parts = append(parts, "effs_")
 		}
-		return tuple(parts)
+		return c.wrap(parts)
+	}
+	if t.unit.clock && t.src(call.Fun) == "time.Sleep" && len(call.Args) == 1 {
+		d, _ := c.expr(call.Args[0], "Z")
+		return "let now_ := now_ + " + paren(d) + " in\n" + k()
 	}
 	if g, rcv := t.callee(call, c.typeOfIdent); g != nil { // a listed function: bind what it returns
+		if g.slp || g.fuel {
+			t.fail(call, "call of %s, which sleeps or loops", g.key)
+		}
 		if g.pan {
 			t.fail(call, "call of %s, which may panic", g.key)
 		}
@@ -1056,7 +1148,9 @@ func (c *fctx) foreignStmt(call *ast.CallExpr, as *ast.AssignStmt, k func() stri
 	if len(as.Lhs) == 1 {
 		want = c.lhsType(as.Lhs[0], def)
 	}
+	c.atStmt = true
 	code, res, _ := c.foreign(call, want)
+	c.atStmt = false
 	if len(res) != len(as.Lhs) {
 		t.fail(as, "assignment %s (the call has %d results)", firstLine(t.src(as)), len(res))
 	}
@@ -1122,7 +1216,108 @@ func (c *fctx) callCode(g *fn, rcv *ast.Ident, call *ast.CallExpr) (string, stri
 		v, _ := c.expr(call.Args[i], g.ptypes[i])
 		out += " " + paren(v)
 	}
+	if g.clk {
+		out += " now_"
+	}
 	return out, g.resultType()
+}
+
+// carriedVars: the variables declared outside `body` and assigned in `in` (the loop state), in order of
+// declaration (so that reordering the assignments does not reorder them), then the effect list and the
+// clock if the loop adds to / advances them.  visit sees every node of `in`.
+func (c *fctx) carriedVars(in ast.Node, body *ast.BlockStmt, visit func(ast.Node)) (carried, carriedT []string, seen map[string]bool) {
+	t := c.t
+	var carriedPos []token.Pos
+	seen = map[string]bool{}
+	carry := func(e ast.Expr) {
+		r := rootIdent(e)
+		if r == nil || r.Obj == nil || c.names[r.Obj] == "" || seen[c.names[r.Obj]] {
+			return
+		}
+		if p := r.Obj.Pos(); p >= body.Pos() && p <= body.End() { // declared inside the body
+			return
+		}
+		seen[c.names[r.Obj]] = true
+		at := len(carried)
+		for at > 0 && carriedPos[at-1] > r.Obj.Pos() {
+			at--
+		}
+		carried = append(carried[:at], append([]string{c.names[r.Obj]}, carried[at:]...)...)
+		carriedT = append(carriedT[:at], append([]string{c.types[r.Obj]}, carriedT[at:]...)...)
+		carriedPos = append(carriedPos[:at], append([]token.Pos{r.Obj.Pos()}, carriedPos[at:]...)...)
+	}
+	effs, sleeps := false, false
+	ast.Inspect(in, func(n ast.Node) bool {
+		if n == nil {
+			return true
+		}
+		visit(n)
+		switch n := n.(type) {
+		case *ast.AssignStmt:
+			for _, l := range n.Lhs {
+				carry(l)
+			}
+			if call, ok := n.Rhs[0].(*ast.CallExpr); ok && len(n.Rhs) == 1 {
+				if g, rcv := t.callee(call, c.typeOfIdent); g != nil && g.eff {
+					effs = true
+				} else if g != nil && g.mut {
+					carry(rcv)
+				} else if g == nil && c.isAction(call) {
+					effs = true
+				}
+			}
+		case *ast.IncDecStmt:
+			carry(n.X)
+		case *ast.DeferStmt:
+			effs = effs || (!isLockCall(n.Call) && !t.isDropped(n.Call))
+		case *ast.ExprStmt:
+			if call, ok := n.X.(*ast.CallExpr); ok && !isLockCall(call) && !t.isDropped(call) {
+				if t.src(call.Fun) == "time.Sleep" && t.unit.clock {
+					sleeps = true
+				} else if g, rcv := t.callee(call, c.typeOfIdent); g == nil || g.eff {
+					effs = true
+				} else if g.mut {
+					carry(rcv)
+				}
+			}
+		}
+		return true
+	})
+	if effs && c.f.eff {
+		carried, carriedT = append(carried, "effs_"), append(carriedT, "list effect")
+	}
+	if sleeps {
+		carried, carriedT = append(carried, "now_"), append(carriedT, "Z")
+	}
+	return
+}
+
+// forStmt:  for cond { body; post }; k  =>  (fix loop fuel_ vars := match fuel_ with O => None | S fuel_ => if cond then body; post; loop fuel_ vars else k end) fuel_ vars
+func (c *fctx) forStmt(s *ast.ForStmt, k func() string) string {
+	nodes := &ast.BlockStmt{List: []ast.Stmt{s.Body}, Lbrace: s.Body.Lbrace, Rbrace: s.Body.Rbrace}
+	if s.Post != nil {
+		nodes.List = append(nodes.List, s.Post)
+	}
+	carried, carriedT, _ := c.carriedVars(nodes, s.Body, func(ast.Node) {})
+	loop := c.fresh("loop")
+	params, args := "(fuel_ : nat)", "fuel_"
+	for i, v := range carried {
+		params, args = params+" ("+v+" : "+carriedT[i]+")", args+" "+v
+	}
+	k = c.keep(k)
+	ob, on := c.brk, c.cont
+	again := func() string { return loop + " " + args }
+	c.brk, c.cont = k, again
+	if s.Post != nil {
+		c.cont = func() string { return c.stmt(s.Post, again) }
+	}
+	body := c.block(s.Body.List, c.cont)
+	c.brk, c.cont = ob, on
+	if s.Cond != nil {
+		cond, _ := c.expr(s.Cond, "bool")
+		body = "if " + cond + " then\n" + ind(body) + "\nelse\n" + ind(k())
+	}
+	return "(fix " + loop + " " + params + " :=\n   match fuel_ with\n   | O => None\n   | S fuel_ =>\n" + ind(ind(ind(body))) + "\n   end) " + args
 }
 
 // rangeStmt:  for i, x := range xs { body }; k   =>   (fix loop l i vars := match l with [] => k | x :: l' => body end) xs 0 vars
@@ -1138,46 +1333,10 @@ func (c *fctx) rangeStmt(s *ast.RangeStmt, k func() string) string {
 	if (s.Key != nil && key == nil) || (s.Value != nil && val == nil) {
 		t.fail(s, "range variables")
 	}
-	// variables declared outside the loop and assigned inside it are carried through the iterations
-	var carried, carriedT []string
-	var carriedPos []token.Pos
-	seen := map[string]bool{}
-	carry := func(e ast.Expr) {
-		r := rootIdent(e)
-		if r == nil || r.Obj == nil || c.names[r.Obj] == "" || seen[c.names[r.Obj]] {
-			return
-		}
-		if p := r.Obj.Pos(); p >= s.Body.Pos() && p <= s.Body.End() { // declared inside the body
-			return
-		}
-		seen[c.names[r.Obj]] = true
-		at := len(carried) // kept in order of declaration, so that reordering the assignments does not reorder them
-		for at > 0 && carriedPos[at-1] > r.Obj.Pos() {
-			at--
-		}
-		carried = append(carried[:at], append([]string{c.names[r.Obj]}, carried[at:]...)...)
-		carriedT = append(carriedT[:at], append([]string{c.types[r.Obj]}, carriedT[at:]...)...)
-		carriedPos = append(carriedPos[:at], append([]token.Pos{r.Obj.Pos()}, carriedPos[at:]...)...)
-	}
-	effs := false
 	keyUses, elemUses := 0, 0
 	xsSrc := t.src(s.X)
-	ast.Inspect(s.Body, func(n ast.Node) bool {
+	carried, carriedT, seen := c.carriedVars(s.Body, s.Body, func(n ast.Node) {
 		switch n := n.(type) {
-		case *ast.AssignStmt:
-			for _, l := range n.Lhs {
-				carry(l)
-			}
-		case *ast.IncDecStmt:
-			carry(n.X)
-		case *ast.ExprStmt:
-			if call, ok := n.X.(*ast.CallExpr); ok && !isLockCall(call) {
-				if g, rcv := t.callee(call, c.typeOfIdent); g == nil || g.eff {
-					effs = true
-				} else if g.mut {
-					carry(rcv)
-				}
-			}
 		case *ast.IndexExpr:
 			if id, ok := n.Index.(*ast.Ident); ok && key != nil && id.Obj == key.Obj && t.src(n.X) == xsSrc {
 				elemUses++
@@ -1187,11 +1346,7 @@ func (c *fctx) rangeStmt(s *ast.RangeStmt, k func() string) string {
 				keyUses++
 			}
 		}
-		return true
 	})
-	if effs && c.f.eff {
-		carried, carriedT = append(carried, "effs_"), append(carriedT, "list effect")
-	}
 	if r := rootIdent(s.X); elemUses > 0 && r != nil && r.Obj != nil && seen[c.names[r.Obj]] {
 		t.fail(s, "loop that assigns to the slice it indexes")
 	}
